@@ -1,6 +1,9 @@
 #!/usr/bin/env python3
-"""tools/benign_matrix.py <tier> <dir with bNN/patch.diff> [names...]: run, for every property-preserving patch, the check of
-its property plus the checks mapped to the files it touches; anything but exit 0 is printed as ALARM."""
+"""tools/benign_matrix.py <tier> [names...]: run, for every property-PRESERVING change under /verif/benign/<Cxx-pN>/ (patch.diff,
+note.md; written by independent sub-agents who saw only the property text), the check of its property plus the checks mapped
+to the files it touches, on a scratch worktree (VERIF_REPO). Anything but exit 0 is an ALARM to be examined: either the check
+demands more than the property states (fix the check) or the change is not property-preserving after all (say why in
+meta.json "verdict"). Writes /verif/benign/RESULTS.md when run over all."""
 import os, re, subprocess, sys, json, concurrent.futures as cf
 sys.path.insert(0, os.path.dirname(__file__))
 FILES = {
@@ -23,19 +26,28 @@ FILES = {
     "pkg/registry/registry.go": ["C17", "C01", "C04"],
     "cmd/collector/collector.go": ["C20"],
 }
-tier, d = sys.argv[1], sys.argv[2]
-names = sys.argv[3:] or sorted(n for n in os.listdir(d) if os.path.exists(os.path.join(d, n, "patch.diff")))
+tier, d = sys.argv[1], "/verif/benign"
+names = sys.argv[2:] or sorted(n for n in os.listdir(d) if os.path.exists(os.path.join(d, n, "patch.diff")))
 def one(n):
     patch = os.path.join(d, n, "patch.diff")
     touched = re.findall(r"^\+\+\+ b/(\S+)", open(patch).read(), re.M)
     checks = []
-    m = re.match(r"b(\d\d)", n)
+    m = re.match(r"C(\d\d)", n)
     if m: checks.append("C" + m.group(1))
     for f in touched:
         for c in FILES.get(f, []) + (["C19"] if "kafka" in f else []):
             if c not in checks: checks.append(c)
     r = subprocess.run(["/verif/tools/benign_try.sh", patch, n, tier] + checks, stdout=subprocess.PIPE, stderr=subprocess.STDOUT, text=True)
     return n, r.stdout
+rows = []
 with cf.ThreadPoolExecutor(int(os.environ.get("BEN_PAR", "3"))) as ex:
     for n, out in ex.map(one, names):
         print(out, flush=True)
+        res = re.findall(r"^== \S+ vs (C\d\d) \w+: exit=(\d+)", out, re.M)
+        rows.append((n, ", ".join("%s %s" % (c, "silent" if e == "0" else "ALARM(exit %s)" % e) for c, e in res)))
+if not sys.argv[2:]:
+    with open(os.path.join(d, "RESULTS.md"), "w") as f:
+        f.write("# Property-preserving changes (independent sub-agents) and the %s checks run against them\n\n" % tier)
+        f.write("Every check listed must stay silent (exit 0). See DESIGN.md 8.8.\n\n| change | checks |\n|---|---|\n")
+        for r in rows:
+            f.write("| %s | %s |\n" % r)
